@@ -43,6 +43,19 @@ def run(chk, cases_in=None):
             if P["f1_sample"] and len(f1) > P["f1_sample"]:
                 rnd = random.Random(chk.seed)
                 f1 = rnd.sample(f1, P["f1_sample"])
+            # the membership oracle itself: Earley.tla (chart closure as a state machine) must accept exactly
+            # the strings Kleene iteration puts in the language, and every chart item must be sound
+            import itertools
+            eg = gen["f1"][:: (12 if chk.tier == "quick" else 3)] + [pj.grammar_to_json(catalogue.GRAMMARS[n]) for n in ("NULLABLE", "AMBIG", "TWOSTART")]
+            inputs = [[ord(c) for c in "".join(t)] for n in range(4 if chk.tier == "quick" else 5) for t in itertools.product("ab", repeat=n)]
+            ef = os.path.join(wd, "earley.json")
+            json.dump({"grammars": eg, "inputs": inputs}, open(ef, "w"))
+            r = tlc.run_tlc("Earley", "SPECIFICATION Spec\nINVARIANT ChartSound\nINVARIANT AcceptIffMember\nPROPERTY ChartMonotone\nCHECK_DEADLOCK FALSE\n",
+                            env={"EARLEY_CFG": ef}, workers=NPROC, timeout=2400, xmx="6g", check=False)
+            if r.rc != 0 or r.violated:
+                raise tlc.TlcError("Earley.tla: acceptance and Kleene membership disagree or TLC failed:\n" + r.out[-2000:])
+            chk.add_tlc(r)
+            chk.cov["earley_model_states"] = r.distinct
             cases = []
             for g in f1:
                 cases.append({"g": g, "L": P["L"], "family": "tiny2"})
